@@ -129,6 +129,8 @@ class NdContract(Contract):
             return self._squeeze(eng, st, a0)
         if name == "squeeze" and is_nd(recv):
             return self._squeeze(eng, st, recv)
+        if name == "numpy.atleast_1d" and is_nd(a0) and len(args) == 1:
+            return a0 if a0.shape else self._derive(a0, shape=(1,), kind="ndarray", prov="ERASED", cell=(lambda i, c=a0.cell: c()) if getattr(a0, "cell", None) else None)
         if name == "reshape" and is_nd(recv):
             tgt = args[0] if len(args) == 1 else tuple(args)
             if tgt == -1:
